@@ -144,7 +144,9 @@ def rule_no_bailout(ctx, M, u):
                     exit_e.append(ed)
         # Pending values built on a way out of the loop that is neither the exhaustion of the scan's iterator nor the
         # "nothing flagged" test: reachable from the header within one iteration while avoiding both
-        r = body.reach(body.succs(header), avoid_edges=list(exit_e) + list(quiet), stop_blocks=[header])
+        # (with the carrier pruning of reach_from_edges: a `break` that follows `found = Some(x)` does not lead to the
+        # `None => Poll::Pending` arm of the match after the loop)
+        r = bi.reach_from_edges([(header, x) for x in body.succs(header)], avoid_edges=list(exit_e) + list(quiet), stop_blocks=[header])
         for b in sorted(pend):
             if b in r and b != header:
                 bad.append(b)
